@@ -319,6 +319,8 @@ def run_instance(u, nm, inst, tier, keep=False):
                 kind = ('invariant_base' if 'before entry' in desc else 'invariant_step' if 'preserved' in desc else
                         'decreases' if 'decreases' in desc else 'instrumentation')
                 name = f'{fn}.{lp}:{kind}'
+            elif '.assertion.' in pid and fil and not fil.startswith('<') and 'canary' not in desc:
+                name = '%s.assertion[%s]@%s' % (pid.split('.')[0], re.sub(r'[^A-Za-z0-9_.,()<>=+-]+', '_', desc)[:70], os.path.basename(fil))
             elif fil and not fil.startswith('<'):
                 name = f'{pid}@{os.path.basename(fil)}:{line}'
             if 'loop_invariant' in pid or 'loop invariant' in desc: has_loop_ob = True
@@ -438,7 +440,7 @@ def main():
         for x in r['assumptions']: assumptions.add(x)
         for x in u.get('trusted', []): trusted.add(x)
         pu = dict(unit=r['unit'], function=r['function'], label=r['label'], status=r['status'],
-                  solver_s=r['solver_s'], wall_s=r['wall_s'], backend='cbmc 6.11.0 / SAT (minisat2)',
+                  solver_s=r['solver_s'], wall_s=r['wall_s'], backend='cbmc 6.11.0 / SAT (%s)' % ('cadical' if 'cadical' in ' '.join(u.get('cbmc', [])) else 'minisat2'), mode=u.get('mode', 'legacy'),
                   obligations=0, discharged=0)
         per_unit.append(pu)
         if r['status'] != 'done':
@@ -476,6 +478,10 @@ def main():
                 k = match_known(known, a.prop, r['unit'], o['name'])
                 if k:
                     knownhits.append((k, r['unit'], o))
+                    # a listed finding is reported on its own line and in coverage.known_findings, not as an open obligation
+                    pu['obligations'] -= 1
+                    if bounded: n_bounded -= 1
+                    else: n_ob -= 1
                 else:
                     violations.append((r, o))
             else:
@@ -539,7 +545,7 @@ def write_evidence(pid, tier, seed, results, per_unit, n_ob, n_ok, n_b, n_bok, s
                units=per_unit,
                samples=samples or [dict(note='no labelled clause sampled')],
                clauses_not_decided=meta.get('not_decided', []),
-               known_findings=sorted(set(knownlines)),
+               known_findings=sorted(set(knownlines)), known_finding_obligations=len(knownlines),
                undecided=undecided,
                backend='cbmc 6.11.0 (goto-instrument --dfcc; SAT back end minisat2)',
                solver_s_total=round(sum(p['solver_s'] for p in per_unit), 1),
